@@ -2,6 +2,10 @@ package props
 
 import (
 	"fmt"
+	"math/rand"
+
+	"github.com/truora/minidyn/interpreter"
+	mtypes "github.com/truora/minidyn/types"
 
 	"verifharness/adapt"
 	"verifharness/model"
@@ -457,10 +461,79 @@ func (p *c04) RunCase(ctx *runner.Ctx) runner.CaseResult {
 				witness(rq.op, map[string]interface{}{"limit": L, "pages_before": k, "deleted": del, "lastkey": lek}))
 		}
 	}
+	if ctx.Case%3 == 0 {
+		p.nativeKeyWalks(x, cl, adapter, spec, len(t.Items), r, ctx)
+	}
 	if ctx.Case < 2 {
 		x.r.Sample = map[string]interface{}{"adapter": adapter, "history_len": len(hist), "items": len(t.Items), "requests": len(reqs), "example": reqs[len(reqs)-1].op}
 	}
 	return x.r
+}
+
+// nativeKeyWalks: the walk property does not depend on WHO judges the key condition. With the native interpreter
+// active and the key condition served by a registered matcher (under a text the expression language cannot read -
+// the documented use of the native interpreter), queries with a filter (served by the language) and every Limit
+// page like any other query: at most Limit items per page, the pages together are the unpaginated result.
+func (p *c04) nativeKeyWalks(x *res, cl adapt.Client, adapter string, spec adapt.TableSpec, n int, r *rand.Rand, ctx *runner.Ctx) {
+	nc := nativeOf(cl)
+	native := interpreter.NewNativeInterpreter()
+	same := func(a, b *mtypes.Item) bool {
+		switch {
+		case a == nil || b == nil:
+			return false
+		case a.S != nil && b.S != nil:
+			return *a.S == *b.S
+		case a.N != nil && b.N != nil:
+			return val.NumEqual(*a.N, *b.N)
+		case a.B != nil && b.B != nil:
+			return string(a.B) == string(b.B)
+		}
+		return false
+	}
+	for _, src := range c02Sources() {
+		attr := src.hashAttr
+		native.AddMatcher(spec.Name, interpreter.ExpressionTypeKey, "PARTITION OF "+attr+" IS :h", func(item map[string]*mtypes.Item, vals map[string]*mtypes.Item) bool {
+			return same(item[attr], vals[":h"])
+		})
+	}
+	nc.setInterp(native)
+	nc.activate()
+	for _, src := range c02Sources() {
+		for _, hv := range src.hashPool[:2] {
+			for fi := 0; fi < 2; fi++ {
+				values := val.Item{":h": ixV(src.hashAttr, hv)}
+				op := adapt.Op{Kind: adapt.OpQuery, Table: spec.Name, Index: src.index, KeyCnd: "PARTITION OF " + src.hashAttr + " IS :h", Values: values, Rev: r.Intn(2) == 0}
+				if fi == 1 {
+					names := map[string]string{}
+					op.Filter = typedFilter(r, values, "f").Render(names, refmodel.RenderOpts{})
+					if len(names) > 0 {
+						op.Names = names
+					}
+				}
+				base := cl.Do(op)
+				x.r.Evals++
+				if base.Class != adapt.ClsOK {
+					x.r.Inconclusive++
+					x.set("unjudged_requests", "native: "+base.Class+": "+base.Msg)
+					continue
+				}
+				for L := 1; L <= len(base.Items)+1 && L <= 12; L++ {
+					w := walk(cl, op, L, n+3, 0, nil, ctx, x)
+					x.fp(w.pages >= 2, "%s|native-key|%s|f%d|L%d|p%d", adapter, src.index, fi, L, w.pages)
+					x.r.Counters["native_key_condition_walks"]++
+					wit := map[string]interface{}{"adapter": adapter, "spec": spec, "request": op, "limit": L, "native_key_matcher": true}
+					if w.problem != "" {
+						x.viol("page-protocol", "native-key/"+op.Kind+featIdx(op), fmt.Sprintf("[%s] query judged by a registered key matcher, filter %q, Limit=%d: %s", adapter, op.Filter, L, w.problem), wit)
+						return
+					}
+					if adapt.ItemsCanon(w.items) != adapt.ItemsCanon(base.Items) {
+						x.viol("concat-differs", "native-key/"+op.Kind+featIdx(op), fmt.Sprintf("[%s] query judged by a registered key matcher, filter %q, Limit=%d: %d pages gave %s; unpaginated gave %s", adapter, op.Filter, L, w.pages, adapt.ItemsCanon(w.items), adapt.ItemsCanon(base.Items)), wit)
+						return
+					}
+				}
+			}
+		}
+	}
 }
 
 func featIdx(op adapt.Op) string {
